@@ -96,6 +96,7 @@ class Gate:
         self.src = src
         self.statics = {}
         self.bind = {}        # local name -> header id
+        self.pskvars = set()  # local names bound to the configured PSK value (let-chains)
         self.guards = []      # (smt condition, text)
         self.macro = None     # (cmp_atom_prefix, default_bool)
         self.notes = []
@@ -160,6 +161,12 @@ class Gate:
             h = self.bind.get(var)
             if h is None:
                 raise Inconclusive(f"header_matches! on an unknown binding {var}")
+            if const in self.pskvars:
+                if h != "psk":
+                    raise Inconclusive(f"the configured PSK is compared with header {h}")
+                # exact comparison is the specification's psk_eq; a case-insensitive one is weaker
+                atom = "psk_eq" if self.macro[0] == "eqex" else "psk_eqci"
+                return f"(ite present_psk {atom} {self.macro[1]})"
             if const not in self.statics:
                 raise Inconclusive(f"header_matches! against an unknown constant {const}")
             want = REQUIRED_VALUES.get(h, "?")
@@ -179,6 +186,11 @@ class Gate:
         m = re.fullmatch(r"self\.ws_psk\.is_(some|none)\(\)", e)
         if m:
             return "psk_cfg" if m.group(1) == "some" else "(not psk_cfg)"
+        # let-chain: `let Some(p) = self.ws_psk` is true iff a PSK is configured and names its value
+        m = re.fullmatch(r"let\s+Some\(\s*(\w+)\s*\)\s*=\s*(?:&\s*)?self\.ws_psk", e)
+        if m:
+            self.pskvars.add(m.group(1))
+            return "psk_cfg"
         m = re.fullmatch(r"(\w+)\s*(!=|==)\s*self\.ws_psk", e) or re.fullmatch(r"self\.ws_psk\s*(!=|==)\s*(\w+)", e)
         if m:
             g = m.groups()
@@ -356,10 +368,12 @@ def smt_preamble(atoms):
     for h in ("connection", "upgrade", "version", "protocol"):
         s += f"(assert (=> eqex_{h} eqci_{h}))\n(assert (=> eqci_{h} present_{h}))\n(assert (=> other_{h} present_{h}))\n"
     s += "(assert (=> psk_eq (and psk_cfg present_psk)))\n"
+    # a header that equals the PSK up to ASCII case: implied by byte equality, needs both sides
+    s += "(assert (=> psk_eq psk_eqci))\n(assert (=> psk_eqci (and psk_cfg present_psk)))\n"
     return s
 
 
-ATOMS = ["method_get", "psk_cfg", "psk_eq", "on_upgrade", "obfs"] + [f"present_{h}" for h in ("connection", "upgrade", "key", "protocol", "version", "psk")] + \
+ATOMS = ["method_get", "psk_cfg", "psk_eq", "psk_eqci", "on_upgrade", "obfs"] + [f"present_{h}" for h in ("connection", "upgrade", "key", "protocol", "version", "psk")] + \
         [f"{p}_{h}" for p in ("eqci", "eqex", "other") for h in ("connection", "upgrade", "version", "protocol")]
 
 SPEC_UPGRADE = "(and method_get (or (not psk_cfg) psk_eq) present_key eqci_connection eqci_upgrade eqci_version eqci_protocol)"
@@ -415,7 +429,7 @@ def atoms_to_request(v, statics):
         hdr.append(("sec-websocket-key", "dGhlIHNhbXBsZSBub25jZQ=="))
     psk_cfg = v.get("psk_cfg", False)
     if v.get("present_psk", False):
-        hdr.append(("x-penguin-psk", "correct PSK" if v.get("psk_eq", False) else "correct PSK "))
+        hdr.append(("x-penguin-psk", "correct PSK" if v.get("psk_eq", False) else ("CORRECT psk" if v.get("psk_eqci", False) else "correct PSK ")))
     return dict(method="GET" if v.get("method_get", False) else "POST", headers=hdr, psk="correct PSK" if psk_cfg else None,
                 on_upgrade=v.get("on_upgrade", False), obfs=v.get("obfs", False))
 
